@@ -2,6 +2,7 @@ package sym
 
 import (
 	"fmt"
+	"strconv"
 	"time"
 
 	"golang.org/x/tools/go/ssa"
@@ -131,6 +132,14 @@ func init() {
 			st.log = append(st.log[:len(st.log):len(st.log)], LogEntry{Name: name, Kind: "config", Strs: []string{v}})
 		}
 		return one(st, e.StrConst(v))
+	}
+	vpAPI["vpConfigInt"] = func(e *Engine, st *State, args []Value, fn *ssa.Function) []Outcome {
+		outs := vpAPI["vpConfig"](e, st, args, fn)
+		n, err := strconv.Atoi(e.mustConcStr(outs[0].ret))
+		if err != nil {
+			panic(e.abort("vpConfigInt: %v", err))
+		}
+		return one(st, e.tb.Int64(int64(n)))
 	}
 	vpAPI["vpAssume"] = func(e *Engine, st *State, args []Value, fn *ssa.Function) []Outcome {
 		c := args[0].(*Term)
